@@ -9,7 +9,6 @@ class BaseSocket:
         self.connected = False
         self.upgrading = False
         self.upgraded = False
-        self._upgrade_attempt = False
         self.closing = False
         self.closed = False
         self.session = {}
